@@ -27,3 +27,14 @@ func (s *Server) VerifClose() {
 	s.cancel()
 	_ = s.httpServer.Close()
 }
+
+// VerifOpenStreams sums the open multiplexed streams over all upstream sessions.
+func (s *Server) VerifOpenStreams() int {
+	s.sessionsMu.Lock()
+	defer s.sessionsMu.Unlock()
+	n := 0
+	for sess := range s.sessions {
+		n += sess.NumStreams()
+	}
+	return n
+}
